@@ -342,19 +342,33 @@ def evaluate(ctx, e, cases, pristine=None, tools=True, model=True, targets=None)
                 tool_jobs.append((i, "rdsquashfs " + fl, [e.T["rdsquashfs"], fl, tp, paths[i]], None))
     # 3. tools
     if tool_jobs:
-        def runt(j):
+        def runt(j, timeout=TIMEOUT):
             i, label, cmd, accept = j
             if label == "rdsquashfs -u":
                 d = os.path.join(ctx.scratch, "unp", "%06d" % i)
                 os.makedirs(d, exist_ok=True)
                 r = run_proc([e.T["rdsquashfs"], "-q", "-u", "/", "-p", d, "-X", paths[i]], env=e.env,
-                             stdout=subprocess.DEVNULL)
+                             stdout=subprocess.DEVNULL, timeout=timeout)
                 shutil.rmtree(d, ignore_errors=True)
                 return j, r
-            return j, run_proc(cmd, env=e.env, stdout=subprocess.DEVNULL)
+            return j, run_proc(cmd, env=e.env, stdout=subprocess.DEVNULL, timeout=timeout)
         tt = time.time()
         with ThreadPoolExecutor(16) as ex:
             tres = list(ex.map(runt, tool_jobs))
+        # A time-out among 16 parallel sanitizer runs on a loaded machine is not yet a hang (vp check 5: the images with a
+        # 2^27-entry fragment table made every tool allocate and clear 2 GiB at once and all of them passed the 10 s
+        # limit on the busy copy): a run that timed out is repeated ALONE with a generous limit; it is reported as a hang
+        # only if it does not finish then either.  After the first confirmed hang the remaining time-outs stand as they are.
+        confirmed = False
+        for k, (j, r) in enumerate(tres):
+            if r["rc"] != "TIMEOUT" or confirmed:
+                continue
+            _, r2 = runt(j, timeout=TIMEOUT * 9)
+            if r2["rc"] == "TIMEOUT":
+                confirmed = True
+            else:
+                tres[k] = (j, r2)
+                stats["timeouts_passed_alone"] = stats.get("timeouts_passed_alone", 0) + 1
         stats["tool_runs"] = len(tres)
         slow = sorted(tres, key=lambda x: -x[1]["t"])[:3]
         ctx.log("  harness %.1fs model %.1fs tools %.1fs; slowest: %s" % (t_h, t_m, time.time() - tt, [
@@ -672,6 +686,7 @@ def run(ctx):
     ctx.coverage["traces_validated_against_impl_compopt"] = co.get("agree", 0)
     ctx.coverage["compopt"] = co
     ctx.coverage["distinct_nontrivial"] = len(nontriv)
+    ctx.coverage["tool_timeouts_passed_when_run_alone"] = sum(st.get("timeouts_passed_alone", 0) for st in stats_all)
     ctx.coverage["traces_validated_against_impl"] = tot["agree"]
     ctx.coverage["rule"] = (
         "images: %d structured (9 valid Builder templates x single-field overrides at 0/1/max-1/max and the boundary +-1 of "
